@@ -48,14 +48,14 @@ def s2b(x):
 MC_STATS = re.compile(r"(\d+) states generated, (\d+) distinct states found, (\d+) states left on queue")
 
 
-def run_mc(name, workdir, level=None, timeout=3000, simulate=None):
+def run_mc(name, workdir, level=None, timeout=3000, simulate=None, tier="quick"):
     """Run spec/mc/<name>/MC_<name> exhaustively.  Returns dict(states, distinct, wall, ok)."""
     import runner
     src = os.path.join(VERIF, "spec", "mc", name)
     wd = os.path.join(workdir, "mc_" + name)
     shutil.copytree(src, wd)
     cfg = "MC_%s.cfg" % name
-    if name == "coop" and os.environ.get("VERIF_TIER", "") != "thorough" and level != "full":
+    if name == "coop" and tier != "thorough" and level != "full":
         cfg = "MC_coop2.cfg"
     if level is not None and level != "full":
         p = os.path.join(wd, cfg)
